@@ -519,3 +519,203 @@ Proof.
     + cbn [LW.write_list_v5]. rewrite Hwx. cbn [bind]. rewrite Hw. reflexivity.
     + split; [cbn [concat]; now rewrite app_assoc|]. constructor; assumption.
 Qed.
+
+(* ================================================================== (4) the DIE tree: the composed passes are UnitWr's
+   passes on the tree whose opaque Expressions are instantiated *)
+
+Section gdie_induction.
+  Variable P : gdie -> Prop.
+  Hypothesis step : forall id tag sib attrs ch, Forall P ch -> P (GDie id tag sib attrs ch).
+  Fixpoint gdie_ind2 (d : gdie) : P d :=
+    match d with
+    | GDie id tag sib attrs ch =>
+        step id tag sib attrs ch
+          ((fix go (l : list gdie) : Forall P l :=
+              match l with
+              | [] => Forall_nil P
+              | c :: r => Forall_cons c (gdie_ind2 c) (go r)
+              end) ch)
+    end.
+End gdie_induction.
+
+Fixpoint gdie_ids (d : gdie) : list nat :=
+  match d with GDie id _ _ _ ch => id :: flat_map gdie_ids ch end.
+Definition gdies_ids (l : list gdie) : list nat := flat_map gdie_ids l.
+
+(* opaque Exprloc values mixed into the tree keep C11's hypothesis *)
+Fixpoint gdie_ok (d : gdie) : Prop :=
+  match d with
+  | GDie _ _ _ attrs ch =>
+      Forall (fun p => gexpr_ok (snd p)) attrs /\
+      (fix go (l : list gdie) : Prop := match l with [] => True | c :: r => gdie_ok c /\ go r end) ch
+  end.
+Fixpoint gdies_ok (l : list gdie) : Prop := match l with [] => True | c :: r => gdie_ok c /\ gdies_ok r end.
+Lemma gdie_ok_unfold id tag sib attrs ch :
+  gdie_ok (GDie id tag sib attrs ch) = (Forall (fun p => gexpr_ok (snd p)) attrs /\ gdies_ok ch).
+Proof. reflexivity. Qed.
+
+Section glue_tree.
+  Variables (dbg : bool) (cx : wcx).
+
+  Fixpoint gwrite_list (l : list gdie) (p : N) : res (list wop * list fixup) :=
+    match l with
+    | [] => Ok ([], [])
+    | k :: r =>
+        let* o := gwrite_die dbg cx k p in
+        let* rest := gwrite_list r (p + ops_len (fst o)) in
+        Ok (fst o ++ fst rest, snd o ++ snd rest)
+    end.
+
+  Lemma gwrite_die_unfold id tag sib attrs ch pos :
+    gwrite_die dbg cx (GDie id tag sib attrs ch) pos =
+    (let* _ := (if dbg
+                then let* here := debug_info_offset dbg (wc_unit cx) (wc_entries cx) (mkEid (wc_unit cx) id) in
+                     dassert dbg (match here with Some o => o =? pos | None => false end)
+                else Ok tt) in
+     let* code := idx_get (wc_codes cx) id in
+     let* cb := write_uleb128 code in
+     let w := wsz (wc_enc cx) in
+     let has_sib := sib && ghas_kids ch in
+     let head := UnitWr.blen cb + (if has_sib then w else 0) in
+     let* a := gattrs_write dbg cx (pos + head) attrs in
+     match ch with
+     | [] => Ok (WMark id :: WB cb :: fst a, snd a)
+     | _ =>
+         let* c := gwrite_list ch (pos + head + ops_len (fst a)) in
+         let after := pos + head + ops_len (fst a) + ops_len (fst c) + 1 in
+         let* sibb := (if has_sib
+                       then let* next := chk_sub 64 dbg after (wc_unit_off cx) in
+                            let* b := write_udata (wc_be cx) next w in Ok [WB b]
+                       else Ok []) in
+         Ok (WMark id :: WB cb :: sibb ++ fst a ++ fst c ++ [WB [x00]], snd a ++ snd c)
+     end).
+  Proof. reflexivity. Qed.
+
+  (* a UnitWr value that is the composed value with its Expression instantiated under the unit's complete table *)
+  Definition vrel (gv : gval) (a : aval) : Prop :=
+    match gv with
+    | GV v => a = v
+    | GExpr ex => exists base, a = inst dbg (cx_oe cx) (cx_uo cx) base (GExpr ex)
+    end.
+  Definition arel (ga : N * gval) (a : N * aval) : Prop :=
+    fst ga = fst a /\ vrel (snd ga) (snd a) /\ expr_ok (snd a).
+
+  Fixpoint xrel (g : gdie) (d : die) {struct g} : Prop :=
+    match g, d with
+    | GDie id tag sib gattrs gch, Die id' tag' sib' attrs ch =>
+        id = id' /\ tag = tag' /\ sib = sib' /\ Forall2 arel gattrs attrs /\
+        (fix go (l : list gdie) (m : list die) {struct l} : Prop :=
+           match l, m with
+           | [], [] => True
+           | x :: r, y :: s => xrel x y /\ go r s
+           | _, _ => False
+           end) gch ch
+    end.
+  Fixpoint xrel_list (l : list gdie) (m : list die) {struct l} : Prop :=
+    match l, m with
+    | [], [] => True
+    | x :: r, y :: s => xrel x y /\ xrel_list r s
+    | _, _ => False
+    end.
+  Lemma xrel_unfold id tag sib gattrs gch id' tag' sib' attrs ch :
+    xrel (GDie id tag sib gattrs gch) (Die id' tag' sib' attrs ch) =
+    (id = id' /\ tag = tag' /\ sib = sib' /\ Forall2 arel gattrs attrs /\ xrel_list gch ch).
+  Proof. reflexivity. Qed.
+
+  Lemma xrel_list_kids l m : xrel_list l m -> has_kids m = ghas_kids l.
+  Proof. destruct l, m; cbn; tauto. Qed.
+
+  Lemma xrel_expr_ok : forall g d, xrel g d -> die_expr_ok d.
+  Proof.
+    induction g as [id tag sib gattrs gch IH] using gdie_ind2. intros [id' tag' sib' attrs ch] H.
+    rewrite xrel_unfold in H. destruct H as [_ [_ [_ [Ha Hc]]]]. rewrite die_expr_ok_unfold. split.
+    - clear - Ha. induction Ha as [|x y l l' [_ [_ Hx]] _ IHa]; constructor; assumption.
+    - clear Ha. revert ch Hc. induction IH as [|c r Hc' _ IHr]; intros [|y s] H; cbn [xrel_list dies_expr_ok] in *; try tauto.
+      destruct H as [H1 H2]. split; [apply Hc'; exact H1|apply IHr; exact H2].
+  Qed.
+
+  Lemma xrel_ids : forall g d, xrel g d -> die_ids d = gdie_ids g.
+  Proof.
+    induction g as [id tag sib gattrs gch IH] using gdie_ind2. intros [id' tag' sib' attrs ch] H.
+    rewrite xrel_unfold in H. destruct H as [<- [_ [_ [_ Hc]]]]. cbn [die_ids gdie_ids]. f_equal.
+    revert ch Hc. induction IH as [|c r Hc' _ IHr]; intros [|y s] H; cbn [xrel_list flat_map] in *; try tauto.
+    destruct H as [H1 H2]. rewrite (Hc' _ H1), (IHr _ H2). reflexivity.
+  Qed.
+
+  (* ---- the write pass ---- *)
+  Lemma gattrs_write_sim : forall attrs pos aops afx,
+    gattrs_write dbg cx pos attrs = Ok (aops, afx) -> Forall (fun p => gexpr_ok (snd p)) attrs ->
+    pos + ops_len aops < 2 ^ 64 ->
+    exists attrs', Forall2 arel attrs attrs' /\ attrs_write dbg cx attrs' = Ok aops.
+  Proof.
+    induction attrs as [|[n v] r IH]; intros pos aops afx H X B; cbn [gattrs_write] in H.
+    - injection H as <- <-. exists []. split; [constructor|reflexivity].
+    - apply bind_ok_inv in H. destruct H as [[o f] [E H]]. apply bind_ok_inv in H. destruct H as [[ro rf] [Er H]].
+      cbn [fst snd] in *. injection H as <- <-. rewrite ops_len_app in B.
+      inversion X as [|? ? X1 X2]; subst. cbn [snd] in X1.
+      destruct (IH _ _ _ Er X2 ltac:(lia)) as [r' [HF Hw]].
+      destruct v as [v|ex].
+      + destruct (gav_write_plain_inv _ _ _ _ _ _ E) as [W _].
+        exists ((n, v) :: r'). split.
+        * constructor; [|exact HF]. split; [reflexivity|]. split; [reflexivity|exact X1].
+        * cbn [attrs_write]. rewrite W. cbn [bind]. rewrite Hw. reflexivity.
+      + destruct (gav_write_expr_inv _ _ _ _ _ _ E) as [size [l [body [fx0 [Es [El [Ew [-> [-> W]]]]]]]]].
+        exists ((n, inst dbg (cx_oe cx) (cx_uo cx) (pos + UnitWr.blen l) (GExpr ex)) :: r'). split.
+        * constructor; [|exact HF]. split; [reflexivity|]. split; [eexists; reflexivity|].
+          apply inst_expr_ok. intros bs fx Eb. rewrite Ew in Eb. injection Eb as <- <-.
+          rewrite !ops_len_cons, ops_len_nil in B. cbn [op_bytes] in B. unfold OW.blen, UnitWr.blen in *. lia.
+        * cbn [attrs_write]. rewrite W. cbn [bind]. rewrite Hw. reflexivity.
+  Qed.
+
+  Lemma gwrite_list_sim ch :
+    Forall (fun g => forall pos ops fx, gwrite_die dbg cx g pos = Ok (ops, fx) -> gdie_ok g ->
+                     pos + ops_len ops < 2 ^ 64 -> exists d, xrel g d /\ write_die dbg cx d pos = Ok ops) ch ->
+    forall pos ops fx, gwrite_list ch pos = Ok (ops, fx) -> gdies_ok ch -> pos + ops_len ops < 2 ^ 64 ->
+    exists ch', xrel_list ch ch' /\ write_list dbg cx ch' pos = Ok ops.
+  Proof.
+    induction 1 as [|c r Hc _ IH]; intros pos ops fx H X B; cbn [gwrite_list] in H.
+    - injection H as <- <-. exists []. split; [exact I|reflexivity].
+    - apply bind_ok_inv in H. destruct H as [[o f] [E H]]. apply bind_ok_inv in H. destruct H as [[ro rf] [Er H]].
+      cbn [fst snd] in *. injection H as <- <-. rewrite ops_len_app in B. destruct X as [X1 X2].
+      destruct (Hc _ _ _ E X1 ltac:(lia)) as [d [Hd Wd]].
+      destruct (IH _ _ _ Er X2 ltac:(lia)) as [r' [Hr Wr]].
+      exists (d :: r'). split; [split; assumption|]. cbn [write_list]. rewrite Wd. cbn [bind]. rewrite Wr. reflexivity.
+  Qed.
+
+  Lemma gwrite_die_sim : forall g pos ops fx,
+    gwrite_die dbg cx g pos = Ok (ops, fx) -> gdie_ok g -> pos + ops_len ops < 2 ^ 64 ->
+    exists d, xrel g d /\ write_die dbg cx d pos = Ok ops.
+  Proof.
+    induction g as [id tag sib gattrs gch IH] using gdie_ind2. intros pos ops fx H X B.
+    rewrite gwrite_die_unfold in H. rewrite gdie_ok_unfold in X. destruct X as [Xa Xc].
+    apply bind_ok_inv in H. destruct H as [u0 [E0 H]].
+    apply bind_ok_inv in H. destruct H as [code [Ec H]].
+    apply bind_ok_inv in H. destruct H as [cb [Eb H]]. cbv zeta in H.
+    apply bind_ok_inv in H. destruct H as [[aops afx] [Ea H]]. cbn [fst snd] in H.
+    destruct gch as [|c r].
+    - injection H as <- <-. rewrite !ops_len_cons in B. cbn [op_bytes] in B. change (UnitWr.blen []) with 0 in B.
+      cbn [ghas_kids] in *. rewrite andb_false_r in *.
+      destruct (gattrs_write_sim _ _ _ _ Ea Xa ltac:(lia)) as [attrs' [HF Wa]].
+      exists (Die id tag sib attrs' []). split.
+      + rewrite xrel_unfold. repeat split; try assumption.
+      + rewrite write_die_unfold. rewrite E0. cbn [bind]. rewrite Ec. cbn [bind]. rewrite Eb. cbn [bind]. cbv zeta.
+        rewrite Wa. reflexivity.
+    - apply bind_ok_inv in H. destruct H as [[cops cfx] [Ech H]]. cbn [fst snd] in H.
+      apply bind_ok_inv in H. destruct H as [sibb [Es H]]. injection H as <- <-.
+      rewrite !ops_len_cons, !ops_len_app in B. cbn [op_bytes] in B.
+      change (UnitWr.blen []) with 0 in B. change (UnitWr.blen [x00]) with 1 in B. rewrite ?ops_len_nil in B.
+      assert (Hs : ops_len sibb = (if sib && ghas_kids (c :: r) then wsz (wc_enc cx) else 0)).
+      { destruct (sib && ghas_kids (c :: r)).
+        - apply bind_ok_inv in Es. destruct Es as [nx [_ Es]]. apply bind_ok_inv in Es. destruct Es as [b [Ew Es]].
+          injection Es as <-. rewrite ops_len_wb. eapply write_udata_len; exact Ew.
+        - injection Es as <-. apply ops_len_nil. }
+      rewrite Hs in B.
+      destruct (gattrs_write_sim _ _ _ _ Ea Xa ltac:(lia)) as [attrs' [HF Wa]].
+      destruct (gwrite_list_sim _ IH _ _ _ Ech Xc ltac:(lia)) as [ch' [Hch Wc]].
+      exists (Die id tag sib attrs' ch'). split.
+      + rewrite xrel_unfold. repeat split; assumption.
+      + rewrite write_die_unfold. rewrite E0. cbn [bind]. rewrite Ec. cbn [bind]. rewrite Eb. cbn [bind]. cbv zeta.
+        rewrite (xrel_list_kids _ _ Hch). rewrite Wa. cbn [bind].
+        destruct ch' as [|y s]; [destruct Hch|]. rewrite Wc. cbn [bind]. rewrite Es. reflexivity.
+  Qed.
+End glue_tree.
